@@ -25,8 +25,8 @@ func decConfigs(tier string) []DecConfig {
 	}
 	// Init on a DecoderBuffer that already owns a larger slice raises BufferSize lazily
 	out = append(out, DecConfig{W: 2, B: 3, PreCap: 8}, DecConfig{W: 3, B: 4, PreCap: 5})
-	// one geometry beyond a kilobyte with hardly any slack (decisions that depend on len>>10, 1 KiB thresholds ...)
-	out = append(out, DecConfig{W: 1100, B: 1102})
+	// one geometry beyond two kilobytes with one byte of slack (decisions that depend on len>>10, KiB thresholds ...)
+	out = append(out, DecConfig{W: 2100, B: 2101})
 	// every other small (WindowSize, BufferSize) pair that Init ACCEPTS on the tree under test (on the pinned
 	// tree there is none: WindowSize < BufferSize is required; a relaxed Verify brings its configurations in)
 	have := map[[2]int]bool{}
